@@ -284,6 +284,34 @@ SandwichMicro(q, onin, all, upm) ==
   /\ q[1] >= Micro(2 * all[1], upm) - 1 /\ q[2] >= Micro(2 * all[2], upm) - 1
   /\ q[3] <= Micro(2 * all[3], upm) + 1 /\ q[4] <= Micro(2 * all[4], upm) + 1
 
+\* General affine font matrix, written as six integers N over a common denominator D (decimal
+\* matrices: D = 10^6; plain scaling by 1/unitsPerEm: N = <<1,0,0,1,0,0>>, D = unitsPerEm):
+\*   (x, y) |-> ((N[1] x + N[3] y + N[5]) / D, (N[2] x + N[4] y + N[6]) / D)     (text space)
+\* Query results are logged in units of 10^-6 of text space (= 10^-3 PDF glyph space units).
+ImgX(N, x, y) == N[1] * x + N[3] * y + N[5]
+ImgY(N, x, y) == N[2] * x + N[4] * y + N[6]
+\* T * 10^6 / D, rounded toward zero, inside 32 bits
+Scale6N(T, D) == IF 1000000 % D = 0 THEN T * (1000000 \div D)
+                 ELSE LET a == T * 1000 IN (a \div D) * 1000 + ((a % D) * 1000) \div D
+Scale6(T, D)  == IF T >= 0 THEN Scale6N(T, D) ELSE -Scale6N(-T, D)
+\* bounding box (micro units) of the images of a set of points <<x, y>>
+ImgBoxOf(N, D, P) ==
+  <<Scale6(SetMin({ImgX(N, p[1], p[2]) : p \in P}), D), Scale6(SetMin({ImgY(N, p[1], p[2]) : p \in P}), D),
+    Scale6(SetMax({ImgX(N, p[1], p[2]) : p \in P}), D), Scale6(SetMax({ImgY(N, p[1], p[2]) : p \in P}), D)>>
+Corners(b) == {<<b[1], b[2]>>, <<b[1], b[4]>>, <<b[3], b[2]>>, <<b[3], b[4]>>}
+ImgBox(N, D, b) == ImgBoxOf(N, D, Corners(b))       \* image of a box = box of its corner images
+Sheared(N) == N[2] # 0 \/ N[3] # 0
+\* sandwich in PDF units: the reported box q contains the image of every on-curve point (inner) and
+\* lies inside the image of the box of all points (outer).  Without shear the image of the on-curve
+\* box is exact; with shear/rotation the on-curve points themselves (onpts) are mapped.
+SandwichPDF(q, inner, outer) ==
+  /\ q[1] <= inner[1] + 1 /\ q[2] <= inner[2] + 1 /\ q[3] >= inner[3] - 1 /\ q[4] >= inner[4] - 1
+  /\ q[1] >= outer[1] - 1 /\ q[2] >= outer[2] - 1 /\ q[3] <= outer[3] + 1 /\ q[4] <= outer[4] + 1
+\* advance width w (wq = 20 w) in text space: the horizontal scale N[1]/D times w
+WidthMicro(N, D, wq) ==
+  IF D = 1000000 THEN (IF N[1] * wq >= 0 THEN (N[1] * wq) \div 20 ELSE -((-(N[1] * wq)) \div 20))
+  ELSE LET a == N[1] * wq * 50 IN (a \div D) * 1000 + ((a % D) * 1000) \div D
+
 \* fixed pitch ("all glyphs have the same advance width"), widths wq in units of 1/20:
 \* certainly fixed when all widths are equal and non-zero, certainly not when two non-zero widths
 \* differ by a whole unit or more - however the glyphs are ordered and however small the steps
